@@ -38,7 +38,7 @@ macro_rules
          · first | exact iCL | (simp [egRecord, cClosedP] at * <;> grind)))
 
 set_option maxHeartbeats 1600000 in
-theorem invH_step {cfg : Cfg} {s s' : St} {l : Label} (ha : InvA cfg s) (hb : InvB cfg s)
+theorem invH_step {cfg : Cfg} (hs : cfg.code.Sound) {s s' : St} {l : Label} (ha : InvA cfg s) (hb : InvB cfg s)
     (hG : InvG cfg s) (hi : InvH cfg s)
     (h : Stream.step cfg s l = some s') : InvH cfg s' := by
   cases l with
@@ -65,7 +65,7 @@ theorem invH_step {cfg : Cfg} {s s' : St} {l : Label} (ha : InvA cfg s) (hb : In
 theorem invH {cfg : Cfg} (hs : cfg.code.Sound) (hg : 1 ≤ cfg.gmp) {s : St} (h : Reach cfg s) : InvH cfg s := by
   induction h with
   | init => exact invH_init cfg
-  | step hr hstep ih => exact invH_step (invA hs hr) (invB hs hg hr) (invG hs hr) ih hstep
+  | step hr hstep ih => exact invH_step hs (invA hs hr) (invB hs hg hr) (invG hs hr) ih hstep
 
 
 theorem wHolds_le_wNotDone (k : Nat) (ws : List WPc) : cnt (wHolds k) ws ≤ cnt wNotDone ws := by
